@@ -20,7 +20,7 @@ def finish(ctx, text, rule=None):
                       exhaustive=not getattr(ctx, 'partial', 0))
 
 
-def run_specs(ctx, wrapper, entry, table, expect_reach=()):
+def run_specs(ctx, wrapper, entry, table, expect_reach=(), reserve=0):
     """table rows: (name, defines, args, time_limit, note)"""
     S = [dict(name=n, wrapper=wrapper, defines=d, entry=entry, args=a, time_limit=tl, note=note, expect_reach=expect_reach) for (n, d, a, tl, note) in table]
-    return e2.run_configs(ctx, S)
+    return e2.run_configs(ctx, S, reserve=reserve)
